@@ -304,8 +304,8 @@ pub fn print_op(seq: u64, op: &Op) -> String {
         Op::Read { f, n } => format!("read f{} {}", f, n),
         Op::ReadX { f, n } => format!("readx f{} {}", f, n),
         Op::ReadAll(f) => format!("readall f{}", f),
-        Op::Write { f, data } => format!("write f{} {}", f, hex(data)),
-        Op::WriteAll { f, data } => format!("writeall f{} {}", f, hex(data)),
+        Op::Write { f, data } => format!("write f{} {}", f, payload(data)),
+        Op::WriteAll { f, data } => format!("writeall f{} {}", f, payload(data)),
         Op::Seek { f, whence, n } => format!("seek f{} {} {}", f, whence_str(*whence), n),
         Op::Truncate(f) => format!("truncate f{}", f),
         Op::Flush(f) => format!("flush f{}", f),
